@@ -223,6 +223,8 @@ Proof.
     destruct (find_rel _ _ _ _ _ _ _ _ HR Hn Hg Ef) as (q1 & res2 & -> & HR1 & Hr).
     destruct res1 as [f|], res2 as [f2|]; try contradiction.
     + destruct Hr as (<- & Hrp & Hgf).
+      replace (once q1) with (once p1) by (destruct HR1 as (_ & _ & X & _); exact X).
+      destruct (mem_path f (once p1)); [apply IH; exact HR1|].
       destruct (run_file_A rp1 getf1 fuel f p1) as [p2|e] eqn:E2; [|discriminate].
       destruct (run_file_sim2 fuel f f p1 q1 p2 Hrp Hgf HR1 E2) as (q2 & -> & HR2). apply IH; exact HR2.
     + apply IH; exact HR1.
